@@ -457,6 +457,13 @@ void execute(const Json& program, const sim::Config& cfg, const std::string&) {
     if (chdir(home.c_str()) != 0) _exit(13);
     remove_tree(root);
     g_extra["tree_nodes"] += g_nodes.size();
+    {
+        auto ds = sim::dirsim_stats();   // cumulative for this worker process
+        g_extra["fault_simulated_directory_streams"] = ds.streams;
+        g_extra["fault_streams_served_in_non_native_order"] = ds.reordered_streams;
+        g_extra["fault_entries_served_as_DT_UNKNOWN"] = ds.unknown_dtype;
+        g_extra["directory_entries_served"] = ds.entries;
+    }
 }
 
 std::string describe(const Json& p) {
